@@ -1892,3 +1892,26 @@ V(id='c02-div-special-benign-reorder', prop='C02', file='mpmath/libmp/libmpf.py'
   old="        if s_special and t_special:\n            return fnan\n        if s == fnan or t == fnan:\n            return fnan",
   new="        if s == fnan or t == fnan:\n            return fnan\n        if s_special and t_special:\n            return fnan",
   expect='silent')
+
+# ---- C13 S-R2 documented limits ----
+V(id='c13-exp-minus-inf-not-zero', prop='C13', file='mpmath/libmp/libelefun.py',
+  old="    if x == fninf:\n        return fzero", new="    if x == fninf:\n        return fnan", expect='fire:S-R2:mpf_exp')
+V(id='c13-log-zero-plus-inf', prop='C13', file='mpmath/libmp/libelefun.py',
+  old="        if x == fzero: return fninf\n        if x == finf: return finf", new="        if x == fzero: return finf\n        if x == finf: return finf",
+  expect='fire:S-R2:mpf_log')
+V(id='c13-atan-inf-signs-swapped', prop='C13', file='mpmath/libmp/libelefun.py',
+  old="def atan_inf(sign, prec, rnd):\n    if not sign:", new="def atan_inf(sign, prec, rnd):\n    if sign:",
+  expect='fire:S-R2:mpf_atan')
+V(id='c13-tanh-minus-inf', prop='C13', file='mpmath/libmp/libelefun.py',
+  old="            if x == fninf: return fnone", new="            if x == fninf: return fone", expect='fire:S-R2:mpf_tanh')
+V(id='c13-cosh-sinh-minus-inf', prop='C13', file='mpmath/libmp/libelefun.py',
+  old="        if x == fninf: return (finf, fninf)", new="        if x == fninf: return (finf, finf)", expect='fire:S-R2:mpf_sinh')
+V(id='c13-log-special-benign-order', prop='C13', file='mpmath/libmp/libelefun.py',
+  old="        if x == fzero: return fninf\n        if x == finf: return finf\n        if x == fnan: return fnan",
+  new="        if x == fnan: return fnan\n        if x == finf: return finf\n        if x == fzero: return fninf", expect='silent')
+
+# ---- C03 S-R3 ----
+V(id='c03-neg-inf-even-power', prop='C03', file='mpmath/libmp/libmpf.py',
+  old="            if n > 0: return [finf, fninf][n & 1]", new="            if n > 0: return fninf", expect='fire:S-R3:mpf_pow_int')
+V(id='c03-zero-to-zero', prop='C03', file='mpmath/libmp/libmpf.py',
+  old="    n = int(n)\n    if n == 0: return fone", new="    n = int(n)\n    if n == 0: return mpf_pos(s, prec, rnd) if not s[1] else fone", expect='fire:S-R3:mpf_pow_int')
